@@ -164,7 +164,13 @@ impl DocumentBlock {
     pub fn append_inline(&mut self, inline: DocumentInline, line_range: LineRange) {
         match self {
             DocumentBlock::Plain(plain) => plain.inlines.push(inline),
-            DocumentBlock::Para(para) => para.inlines.push(inline),
+            DocumentBlock::Para(para) => {
+                // the paragraph of a tight list item starts as the lines of its first
+                // inline; it covers the lines of every inline it holds
+                para.line_range = para.line_range.start.min(line_range.start)
+                    ..para.line_range.end.max(line_range.end);
+                para.inlines.push(inline)
+            }
             DocumentBlock::CodeBlock(_) => {}
             DocumentBlock::RawBlock(_) => {}
             DocumentBlock::BlockQuote(block_quote) => {
